@@ -13,6 +13,58 @@ NOTE_COMMON = ("Trusted: Lean 4.33 kernel; axioms propext/Classical.choice/Quot.
                "double arithmetic is exact (float residue, DESIGN §3.1/§6).")
 
 CLAIMS = {
+    "C04": dict(
+        category="proof", design_ref="§7 C04",
+        technique="Lean 4 composition theorems for the dump/load pipelines relative to explicit codec laws (hypotheses, tested on the installed ruamel.yaml/json) built on resolve_asdict, simplify_resolves and the C16 lemmas + end-to-end round-trip testing on the real text layer",
+        text=("Kernel-checked theorems roundtrip / roundtrip_yaml / roundtrip_all (multi-document streams of EVERY length, by induction) / roundtrip_json_via_yaml / "
+              "load_dump_yaml / asdict_in_codec_domain / codec_domain_shape / dump_json_strict / sameModel_* over the Model of load_dump.py: for every valid graph, both "
+              "formats and both styles, dump then load returns the same model (migrations as a multiset, metadata after attrs' bool->int coercion), GIVEN the codec laws "
+              "parse(serialise v) = v on the dictionaries the library itself produces (structure CodecLaws: hypotheses, not axioms; satisfied by the identity codec). The JSON "
+              "statements carry the hypothesis jsonSafe (no non-finite number inside user metadata: json.dump(allow_nan=False) refuses it — roundtrip_counterexample). The codec "
+              "laws and the end-to-end round trip are tested on the installed libraries: awkward strings in every string position, awkward numbers, str/path/pathlib/stream "
+              "targets, streams of 0..12 documents, JSON through the YAML loader, str(graph); the Model's pipelines are compared with the code's through the real text layer."),
+        note=NOTE_COMMON + " The text layer (ruamel.yaml 0.19.1, json) is third-party code: its round-trip law is a tested hypothesis, so this is a proof relative to that law; known findings F13 (ruamel flow-style strings starting with '?' / ': ') and F14 (non-BMP characters in JSON read as YAML) are exactly violations of it."),
+    "C05": dict(
+        category="proof", design_ref="§7 C05, Appendix A.2",
+        technique="Lean 4 theorem simplify_resolves over hand-written models of asdict_simplified (incl. the symmetric-group search) and Graph.fromdict + differential correspondence, exhaustive over all 4-deme migration digraphs in the thorough tier",
+        text=("Kernel-checked theorem simplify_resolves: for EVERY graph accepted by Spec.validGraph, the Model of Graph.fromdict accepts the Model's asdict_simplified output and "
+              "returns the same graph up to the order of migrations (each with its original bounds; every epoch's size function preserved) — after the repair of defects F2 and F15; "
+              "with simplify_invariant (the groups found expand to a permutation of the bound-stripped migrations whichever subsets the search tries), simplify_fuel_sufficient "
+              "(termination of the while-loop), simplify_groups_wellformed, stripBounds_roundtrip, epoch/deme field round trips, simplify_accepted, simplify_resolves_valid, "
+              "simplify_same_model, valid_migrations_perm. Model tied to the code by exact comparison of the simplified dictionary on generated graphs, island families with "
+              "partially symmetric patterns and (thorough) all 4096 digraphs on 4 demes; re-resolution of the simplified form is checked on the real code."),
+        note=NOTE_COMMON),
+    "C18": dict(
+        category="proof", design_ref="§7 C18",
+        technique="Lean 4 theorems over a heap model (un-aliasing deep copy: fresh, isomorphic, tree-shaped; frame and confinement theorems; Builder histories) + AST facts regenerated from the source + run-time observation of identity and mutation on the real objects",
+        text=("Kernel-checked theorems deepcopy_fresh / _iso / _unaliased / _walk / _total_backward, frame, frame_after_copy, program_confined, fromdict_preserves_input (ANY program "
+              "that is handed only the copy — i.e. the rest of fromdict, whether it succeeds or fails anywhere — leaves every caller object unchanged), resolve_deterministic, "
+              "resolve_again, resolve_alias_insensitive, history_invariant / _resolve_pure / _graph_stable / _resolve_from_scratch (all resolve/mutate/asdict histories on one Builder), "
+              "memo_copy_counterexample (the repaired defect F1) over a store-of-cells Model; the facts that fromdict's first statement is data = deepcopy_unaliased(data), that the "
+              "helper has the modelled three-branch shape and that Builder.resolve only passes self.data on are regenerated from the source AST each run. The real code is observed "
+              "with logging containers (no mutating call on caller objects), identity snapshots, resolve-twice, Builder histories, scribbling over inputs and returned dictionaries; "
+              "the heap Model's copy is compared with CPython's on all 2-cell (quick) / 3-cell (thorough) heaps."),
+        note=NOTE_COMMON + " Object identity is a run-time notion: it is modelled only through the heap abstraction and observed on the real objects; the level is limited accordingly (DESIGN §7 C18)."),
+    "C19": dict(
+        category="proof", design_ref="§7 C19",
+        technique="Lean 4 theorems over a model of the CLI dispatch on abstract document outcomes (look-ahead preserves the stream for every length; output by cases; error exits) + exhaustive flag x shape x source correspondence on demes.__main__.cli in-process",
+        text=("Kernel-checked theorems iterates_load_all, lookahead_preserves (every stream length), lookahead_count, lookahead_fails, parse_output, parse_zero, parse_one_ms (any N0 "
+              "incl. 0, after the repair of defect F11), parse_one_dump, parse_many_yaml, parse_many_unsupported, parse_error_exit / _early / _late, parse_lib_error_one, "
+              "success_complete (exit 0 => the printed calls cover every document in order), parse_printed_prefix, cli_exclusive, cli_parse, ms_output, ms_error over a Model of "
+              "ParseCommand/MsCommand; the CLI flag table and the tests on args.ms are regenerated from the source. Model tied to the code by running demes.__main__.cli(argv) "
+              "in-process (stdout/stdin captured) on the full flag x document-shape x {path, stdin} space with invalid documents at each position, byte-for-byte against the library "
+              "calls, plus `demes ms` families and a sample re-run in a real subprocess."),
+        note=NOTE_COMMON + " argparse and CPython exception/exit semantics are trusted."),
+    "C20": dict(
+        category="proof", design_ref="§7 C20",
+        technique="Lean 4 theorems bounding step-count functions of the Model by explicit polynomials; exponential lower bound for the symmetric-group search (known finding F9); measured executed-line counts tie the counts to the code",
+        text=("Kernel-checked theorems cost_matrices_poly, cost_checkRates_poly, cost_resolve_poly(_valid), cost_asdict_poly, cost_inGenerations_poly (explicit polynomials of degree <= 4 "
+              "in the numbers of demes, epochs, migrations, pulses, for ALL graphs), cost_search_faithful (the instrumented search returns the Model's result), combinations_length, "
+              "and — the property is FALSE for simplification on the unchanged tree — ring_no_big_subset, cost_simplify_ring_lower (2^n <= cost on a ring of n demes sharing one rate, "
+              "all n >= 4), cost_simplify_not_poly (no polynomial bound exists), with cost_simplify_singletons_poly / _distinct_rates_poly for the part that holds. The tie to the code: "
+              "deterministic executed-line counts (sys.settrace, PYTHONHASHSEED=0, child interpreters) of each public operation on 14 model families at sizes 4..40 must be linearly "
+              "related to the Model's tick counts, and must at most x32 when the size doubles; the exponential families are reported as known finding F9, any other blow-up is a violation."),
+        note=NOTE_COMMON + " Wall-clock time is not modelled; the Model counts association-list lookups where the code uses dicts (an upper bound); to_ms has line counts only."),
     "C17": dict(
         category="proof", design_ref="§7 C17",
         technique="Lean 4 theorems over a control-flow model of load_dump.py's file handling (all entries x targets x fault plans x stream lengths x consumer scripts, by induction) + exhaustive fault-injection correspondence on the real calls",
